@@ -109,7 +109,24 @@ func runCase(t *testing.T, p *pool, c *GCase) {
 			for i := range aobs {
 				in[i] = ocr2plustypes.AttributedObservation{Observation: append([]byte(nil), aobs[i].Observation...), Observer: aobs[i].Observer}
 			}
-			out, err := nd.Plugin.Outcome(context.Background(), outctx, nil, in)
+			// the oracle's own clock must not influence the value: repetition 1 runs with a context that is already
+			// cancelled, repetition 2 with an expired deadline (MaxDurationOutcome passed on a slow node).  Returning
+			// an error then is legitimate; returning a DIFFERENT outcome is not
+			ctx := context.Background()
+			if rep == 1 {
+				cctx, cancel := context.WithCancel(ctx)
+				cancel()
+				ctx = cctx
+			} else if rep == 2 {
+				dctx, cancel := context.WithDeadline(ctx, time.Now().Add(-time.Second))
+				defer cancel()
+				ctx = dctx
+			}
+			out, err := nd.Plugin.Outcome(ctx, outctx, nil, in)
+			if rep > 0 && err != nil && firstErr == nil {
+				c.Evals++
+				continue
+			}
 			if c.Evals == 0 {
 				first, firstErr = out, err
 			} else if (err != nil) != (firstErr != nil) || !bytes.Equal(out, first) {
